@@ -508,8 +508,8 @@ func TestC16(t *testing.T) {
 				break
 			}
 		}
-		longS := strings.Replace(gov, "s", "ſ", 1) // U+017F folds to 's' under strings.EqualFold
-		kelvin := strings.Replace(gov, "k", "K", 1)  // U+212A folds to 'k'
+		longS := strings.Replace(gov, "s", "ſ", 1)  // U+017F folds to 's' under strings.EqualFold
+		kelvin := strings.Replace(gov, "k", "K", 1) // U+212A folds to 'k'
 		otherHrp := "cosmos"
 		if strings.HasPrefix(gov, "cosmos1") {
 			otherHrp = "fx"
